@@ -777,8 +777,25 @@ func (g *Gen) loopModified(li *loopInfo) (map[string][]ssa.Value, bool) {
 				addrHeaps(x.Addr, nil)
 			case *ssa.MapUpdate:
 				dom, val := g.mapHeaps(x.Map.Type().Underlying().(*types.Map))
-				add(dom, nil)
-				add(val, nil)
+				if fn := g.mapTermBase(x.Map, inLoop); fn != nil {
+					// the map is read from a field of an object that does not change in the loop: named by a term
+					// (its invariance is checked in enterLoop)
+					for _, h := range []string{dom, val} {
+						if _, ok := mods[h]; !ok {
+							mods[h] = []ssa.Value{}
+						}
+						if g.loopTermBases == nil {
+							g.loopTermBases = map[string][]func(*State) (string, bool){}
+						}
+						g.loopTermBases[h] = append(g.loopTermBases[h], fn)
+					}
+				} else if !inLoop(x.Map) {
+					add(dom, x.Map)
+					add(val, x.Map)
+				} else {
+					add(dom, nil)
+					add(val, nil)
+				}
 			case *ssa.Alloc:
 				add("$alloc", nil)
 				et := x.Type().Underlying().(*types.Pointer).Elem()
@@ -877,6 +894,40 @@ func (g *Gen) loopModified(li *loopInfo) (map[string][]ssa.Value, bool) {
 		mods[h] = nil
 	}
 	return mods, all
+}
+
+// mapTermBase: for a map value that the loop body loads from a field obj.f, with obj defined outside the loop,
+// the map's reference as a function of the state (nil if the value does not have that shape).
+func (g *Gen) mapTermBase(m ssa.Value, inLoop func(ssa.Value) bool) func(*State) (string, bool) {
+	if !inLoop(m) {
+		return nil
+	}
+	ld, ok := m.(*ssa.UnOp)
+	if !ok || ld.Op != token.MUL {
+		return nil
+	}
+	fa, ok := ld.X.(*ssa.FieldAddr)
+	if !ok || inLoop(fa.X) {
+		return nil
+	}
+	st := fa.X.Type().Underlying().(*types.Pointer).Elem()
+	f := st.Underlying().(*types.Struct).Field(fa.Field)
+	if _, isStruct := f.Type().Underlying().(*types.Struct); isStruct {
+		return nil
+	}
+	heap := g.fieldHeap(st, fa.Field)
+	return func(s *State) (string, bool) {
+		if _, isInstr := fa.X.(ssa.Instruction); isInstr {
+			if _, done := g.vals[fa.X]; !done {
+				return "", false
+			}
+		}
+		base := g.val(fa.X)
+		if base.Addr != nil {
+			return "", false
+		}
+		return fmt.Sprintf("(select %s %s)", g.heapGet(s, heap), base.S), true
+	}
 }
 
 // callTermBases: for a call whose contract modifies `entries(e)` / `contents(e)` with e built from parameters whose
